@@ -399,13 +399,26 @@ class Runner:
                     t.report(x, 1)
                     t.set_user_attr("o", [x])
                     self.hold("objective:study.get_trials(deepcopy=False)", self.study.get_trials(deepcopy=False))
+                    # how the trial ends varies: a usable value, values that make tell fail the trial with a
+                    # warning (NaN / None / wrong arity), a pruned trial, a caught exception
+                    how = int(float(op.get("x", 0.5)) * 1000) % 6
+                    if how == 1:
+                        return float("nan")
+                    if how == 2:
+                        return None  # type: ignore[return-value]
+                    if how == 3:
+                        return [x, x]  # type: ignore[return-value]
+                    if how == 4:
+                        raise optuna.TrialPruned()
+                    if how == 5:
+                        raise ValueError("objective failed")
                     return x
 
                 def cb(study: Any, ft: Any) -> None:
                     self.hold("callback.frozen_trial", ft)
                     self.hold("callback:study.get_trials(deepcopy=False)", study.get_trials(deepcopy=False))
 
-                self.study.optimize(objective, n_trials=1, callbacks=[cb])
+                self.study.optimize(objective, n_trials=1, callbacks=[cb], catch=(ValueError,))
                 self.refresh_tids()
             else:
                 raise AssertionError("unknown write op %r" % k)
